@@ -7,6 +7,7 @@ import (
 	"encoding/json"
 	"fmt"
 	"math/big"
+	"strings"
 
 	"github.com/bnb-chain/tss-lib/v2/crypto"
 	ecdsaresharing "github.com/bnb-chain/tss-lib/v2/ecdsa/resharing"
@@ -346,7 +347,8 @@ func c17Door(r *core.Result, curve, doorName string, n int, seed int64) {
 					r.Fail("door-panic:"+dn+":"+b.what, "%s panicked on bad pair %s: %s", dn, b.what, msg)
 					continue
 				}
-				if berr == nil {
+				if berr == nil || strings.HasPrefix(berr.Error(), "accepted but") {
+					// (a door that hands back an invalid point with a nil error has accepted it)
 					r.Fail("door-accepts:"+dn+":"+b.what, "%s accepted a pair that is not a point of %s: %s of (%s,%s)", dn, curve, b.what, hx(g.X), hx(g.Y))
 				} else {
 					r.Count("bad_refused", 1)
